@@ -33,9 +33,6 @@ theorem readFrom_min {b : Buf} (avail : List UInt8) (hI : b.Inv) :
   dsimp only
   rw [List.length_append, List.length_take]; omega
 
-theorem sum_cons_len (ch : List UInt8) (rest : List (List UInt8)) :
-    ((ch :: rest).map List.length).sum = ch.length + (rest.map List.length).sum := by simp
-
 /-- One transport read after "need more": the bytes ahead are the same, the loop bound decreases. -/
 theorem transportRead_step (k : W → X (W × Next)) (w : W) (ch : List UInt8) (rest : List (List UInt8))
     (hI : w.c.Inv) (hr : w.c.reset = false) (hroom : 0 < w.c.buf.cap - w.c.buf.wi) (hch : w.chunks = ch :: rest) :
